@@ -28,7 +28,10 @@ Tc(id, beh, code, dur, exp, out, stream, expect, t, det, skip) ==
     [id |-> id, beh |-> beh, code |-> code, dur |-> dur, exp |-> exp, out |-> out, stream |-> stream,
      expect |-> expect, t |-> t, det |-> det, skip |-> skip,
      wait |-> 0,      \* `wait`: ticks scrut sleeps before it starts the command (not subject to any limit)
-     sinline |-> TRUE]  \* the stream is written in the test case's own configuration (FALSE: it comes from the document, see sdef)
+     sinline |-> TRUE,  \* the stream is written in the test case's own configuration (FALSE: it comes from the document, see sdef)
+     sab |-> FALSE]     \* the command first damages what scrut keeps below $TMPDIR (replaces the carrier's state file by a
+                        \* directory): a fault of the environment that changes NOTHING about what the test case did - its
+                        \* exit code is still its exit code (no field of the model reads `sab`; that is the statement)
 
 \* a document
 \*  fmt   : "md" | "cram"
